@@ -200,6 +200,10 @@ class Gen:
             self.f["gradient_fill"] += 1
         if self.opt["strokes"] and self.r.random() < 0.3:
             sp = stroke_props(self, self.r)
+            if self.opt["gradients"] and self.gradids and self.r.random() < 0.3:
+                # a gradient as stroke paint (reference-structure workloads only: C04 documents have no gradients)
+                sp["stroke"] = f"url(#{self.r.choice(self.gradids)})"
+                self.f["gradient_stroke"] += 1
             if self.r.random() < 0.3:
                 n.attrs["style"] = (n.attrs.get("style", "") + ";" if n.attrs.get("style") else "") + ";".join(f"{k}:{v}" for k, v in sp.items())
             else:
@@ -438,10 +442,14 @@ class Gen:
                     ch.attrs["transform"] = self.transform()
                     self.f["clip_child_transform"] += 1
                 cp.children.append(ch)
-            if self.clipids and not has_tf and r.random() < 0.35:
-                # clipPath clipped by another clipPath (never together with its own transform)
+            if self.clipids and r.random() < 0.35:
+                # clipPath clipped by another clipPath; together with its own transform the nested clip
+                # region is "placed in the coordinate system of the referencing element", i.e. of this
+                # clipPath including its transform (as for any element that carries both attributes)
                 cp.attrs["clip-path"] = f"url(#{r.choice(self.clipids)})"
                 self.f["clip_the_clip"] += 1
+                if has_tf:
+                    self.f["clip_the_clip_with_own_transform"] += 1
             self.defs.append(cp)
             self.clipids.append(cid)
             self.f["clippath"] += 1
@@ -626,6 +634,14 @@ def paint_doc(rng, allow_redundant=False, root_opacity=False, **opt):
         if r.random() < 0.3:
             inner = Node("g", {"opacity": r.choice(("0.5", "0.8"))}, [grp])
             g.f["nested_translucent"] += 1
+            if r.random() < 0.6:
+                # the outer translucent group holds the inner group plus one or two shapes that overlap it:
+                # neither level can be flattened without changing how the overlap composites
+                for _ in range(r.randint(1, 2)):
+                    s = Node("rect", {"x": fnum(x + g.num(-4, 14)), "y": fnum(y + g.num(-4, 12)), "width": fnum(g.num(20, 45)), "height": fnum(g.num(20, 45))})
+                    g.cascade_attrs(s, leaf=True)
+                    inner.children.insert(r.randint(0, len(inner.children)), s)
+                g.f["nested_translucent_with_sibling"] += 1
             grp = inner
         g.maybe_id(grp, "g", p=0.3)
         body.append(grp)
@@ -1067,9 +1083,17 @@ def noise_node(g, r, kind):
     if kind == "title":
         return Node("title", {}, [], "A title", flag="noise")
     if kind == "desc":
+        if r.random() < 0.25:
+            # descriptive elements nested in one another
+            g.f["noise_nested_descriptive"] += 1
+            return Node("desc", {}, [Node("title", {}, [], "inner title")], flag="noise")
         return Node("desc", {}, [], "A description", flag="noise")
     if kind == "metadata":
-        return Node("metadata", {}, [Node("rdf:RDF", {"xmlns:rdf": "http://www.w3.org/1999/02/22-rdf-syntax-ns#"}, [Node("rdf:Description", {"rdf:about": ""})])], flag="noise")
+        kids = [Node("rdf:RDF", {"xmlns:rdf": "http://www.w3.org/1999/02/22-rdf-syntax-ns#"}, [Node("rdf:Description", {"rdf:about": ""})])]
+        if r.random() < 0.4:
+            kids.insert(r.randint(0, 1), Node(r.choice(("desc", "title")), {}, [], "described"))
+            g.f["noise_nested_descriptive"] += 1
+        return Node("metadata", {}, kids, flag="noise")
     if kind == "foreign_el":
         return Node("sodipodi:namedview", {"pagecolor": "#ffffff", "inkscape:zoom": "1"}, [Node("inkscape:grid", {"type": "xygrid"})], flag="noise")
     if kind == "anon_symbol":
